@@ -16,9 +16,17 @@ class Undefined(Exception):
 LIMIT = 2 ** 31 - 1
 
 
+SALT = [0]      # selects one of several array CONTENTS (see valuations())
+
+
 def arr_value(name, idx):
-    """Arrays are fixed pseudo-random integer functions of their indices."""
-    h = 7
+    """Arrays are pseudo-random integer functions of their indices; the
+    module-level SALT selects the content: 0 and 2 are two different
+    pseudo-random fillings, 1 is the constant array (all elements equal),
+    so that claims such as never_equal(a(1), a(2)) are refuted."""
+    if SALT[0] == 1:
+        return 3
+    h = 7 + 13 * SALT[0]
     for c in name:
         h = (h * 31 + ord(c)) % 1000003
     for i in idx:
